@@ -229,27 +229,31 @@ where
         }
     }
 
+    /// Take the in-flight entry of the key.
+    ///
+    /// The key copy owned by the entry is handed back to the caller, who must drop it out of any lock critical
+    /// section: user key destructors must never run while the cache holds one of its locks.
     #[expect(clippy::type_complexity)]
     pub fn take<Q>(
         &mut self,
         hash: u64,
         key: &Q,
         id: Option<usize>,
-    ) -> Option<Vec<Notifier<Option<RawCacheEntry<E, S, I>>>>>
+    ) -> Option<(Vec<Notifier<Option<RawCacheEntry<E, S, I>>>>, E::Key)>
     where
         Q: Hash + Equivalent<E::Key> + ?Sized,
     {
         match self.inflights.entry(hash, |e| key.equivalent(&e.key), |e| e.hash) {
             Entry::Occupied(o) => match id {
-                Some(id) if id == o.get().inflight.id => Some(o.remove().0.inflight),
+                Some(id) if id == o.get().inflight.id => Some(o.remove().0),
                 Some(_) => None,
-                None => Some(o.remove().0.inflight),
+                None => Some(o.remove().0),
             },
             Entry::Vacant(..) => None,
         }
-        .map(|inflight| {
-            inflight.close.store(true, Ordering::Relaxed);
-            inflight.notifiers
+        .map(|entry| {
+            entry.inflight.close.store(true, Ordering::Relaxed);
+            (entry.inflight.notifiers, entry.key)
         })
     }
 
@@ -268,10 +272,9 @@ where
                 match f.map(unerase_required_fetch_builder) {
                     Some(f) => Some(FetchOrTake::Fetch(f)),
                     None => {
-                        let inflight = o.remove().0.inflight;
-                        inflight.close.store(true, Ordering::Relaxed);
-                        let notifiers = inflight.notifiers;
-                        Some(FetchOrTake::Notifiers(notifiers))
+                        let entry = o.remove().0;
+                        entry.inflight.close.store(true, Ordering::Relaxed);
+                        Some(FetchOrTake::Notifiers(entry.inflight.notifiers, entry.key))
                     }
                 }
             }
@@ -303,5 +306,6 @@ where
     I: Indexer<Eviction = E>,
 {
     Fetch(RequiredFetchBuilder<E::Key, E::Value, E::Properties, C>),
-    Notifiers(Vec<Notifier<Option<RawCacheEntry<E, S, I>>>>),
+    /// The notifiers and the key copy of the removed in-flight entry (to be dropped out of the lock).
+    Notifiers(Vec<Notifier<Option<RawCacheEntry<E, S, I>>>>, E::Key),
 }
